@@ -115,7 +115,8 @@ def run(ctx):
     stack_bad = 0
     hidden_extra_bad = 0
     hidden_missing_trees = 0
-    par = {"parchk": 0, "parzw": 0, "parbad": 0, "parflat": 0, "nschk": 0, "nsout": 0, "nsbad": 0, "nsflat": 0}
+    par = {"parchk": 0, "parzw": 0, "parbad": 0, "parflat": 0, "nschk": 0, "nsout": 0, "nsbad": 0, "nsflat": 0,
+           "pschk": 0, "psout": 0, "psbad": 0, "psflat": 0, "fcbchk": 0, "fcbout": 0, "fcbbad": 0, "fcbflat": 0, "dfrchk": 0, "dfrbad": 0, "dfrflat": 0}
     ns_bad_cases = []
     par_bad_cases = []
     per_clause = {}
@@ -146,7 +147,9 @@ def run(ctx):
             par[k] += int(kv.get(k, "0") or 0)
         if (int(kv.get("parbad", "0") or 0) or int(kv.get("parflat", "0") or 0)) and len(par_bad_cases) < 3:
             par_bad_cases.append("%s: %s" % (cid, specs.get(cid, "")[:120]))
-        if (int(kv.get("nsbad", "0") or 0) or int(kv.get("nsflat", "0") or 0)) and len(ns_bad_cases) < 3:
+        if (int(kv.get("nsbad", "0") or 0) or int(kv.get("nsflat", "0") or 0) or int(kv.get("psbad", "0") or 0)
+                or int(kv.get("psflat", "0") or 0) or int(kv.get("fcbbad", "0") or 0) or int(kv.get("fcbflat", "0") or 0)
+                or int(kv.get("dfrbad", "0") or 0) or int(kv.get("dfrflat", "0") or 0)) and len(ns_bad_cases) < 3:
             ns_bad_cases.append("%s: %s" % (cid, specs.get(cid, "")[:120]))
         fan = int(kv.get("fanout", "0") or 0)
         max_fanout = max(max_fanout, fan)
@@ -191,14 +194,34 @@ def run(ctx):
     ctx.oblige("corr:StackOK-linkage-holds-on-every-cursor-stack(hypothesis of cursor_next_sibling_spec)", stack_bad == 0, "%d stacks" % stack_bad)
     ctx.oblige("corr:hiddenExtraOK-holds-on-real-trees(hypothesis of field_name_for_child_spec)", hidden_extra_bad == 0, "%d trees" % hidden_extra_bad)
     ctx.oblige("corr:parent_spec-hypotheses-hold-on-every-non-empty-node-of-real-trees(pathOK: slot ids distinct along the search, "
-               "ancestors report visible children; and ported ts_node_parent = parentOnPath)", par["parbad"] == 0 and (par["parchk"] > 0 or evals == 0),
+               "ancestors report visible children; and ported ts_node_parent = parentOnPath)", par["parbad"] == 0 and (par["parchk"] > 0 or evals == 0 or bool(ctx.replay)),
                "%d nodes checked, %d zero-width nodes excluded by the hypothesis, %d bad %s" % (par["parchk"], par["parzw"], par["parbad"], "; ".join(par_bad_cases)))
     ctx.oblige("corr:parentOnPath=parent-in-the-flattened-tree(on every node checked)", par["parflat"] == 0, "%d differ %s" % (par["parflat"], "; ".join(par_bad_cases)))
     ctx.oblige("corr:next_sibling_spec-conclusion-holds-wherever-its-hypotheses-hold(non-empty node, nsPathOK: no zero-width raw node follows "
-               "within the parent; nodes failing the hypothesis are counted as outside the theorem)", par["nsbad"] == 0 and (par["nschk"] > 0 or evals == 0),
+               "within the parent; nodes failing the hypothesis are counted as outside the theorem)", par["nsbad"] == 0 and (par["nschk"] > 0 or evals == 0 or bool(ctx.replay)),
                "%d nodes checked, %d outside, %d bad %s" % (par["nschk"], par["nsout"], par["nsbad"], "; ".join(ns_bad_cases)))
     ctx.oblige("corr:head(laterOnPath)=next-sibling-in-the-flattened-tree(on every node checked)", par["nsflat"] == 0,
                "%d differ %s" % (par["nsflat"], "; ".join(ns_bad_cases)))
+    ctx.oblige("corr:prev_sibling_spec-conclusion-holds-wherever-its-hypotheses-hold(non-empty node, psPathOK: the node's slot id occurs nowhere "
+               "among or inside its earlier siblings)", par["psbad"] == 0 and (par["pschk"] > 0 or evals == 0 or bool(ctx.replay)),
+               "%d nodes checked, %d outside, %d bad %s" % (par["pschk"], par["psout"], par["psbad"], "; ".join(ns_bad_cases)))
+    ctx.oblige("corr:last(earlierOnPath)=previous-sibling-in-the-flattened-tree(on every node checked)", par["psflat"] == 0,
+               "%d differ %s" % (par["psflat"], "; ".join(ns_bad_cases)))
+    ctx.oblige("corr:first_child_for_byte_spec-conclusion-holds-wherever-ndeNode-holds(no dead-end descent; sampled goals at child boundaries)",
+               par["fcbbad"] == 0 and (par["fcbchk"] > 0 or evals == 0 or bool(ctx.replay)),
+               "%d (node, goal) pairs checked, %d outside, %d bad %s" % (par["fcbchk"], par["fcbout"], par["fcbbad"], "; ".join(ns_bad_cases)))
+    ctx.oblige("corr:fcbNode=first-child-ending-after-the-goal-in-the-flattened-tree(on every pair checked)", par["fcbflat"] == 0,
+               "%d differ %s" % (par["fcbflat"], "; ".join(ns_bad_cases)))
+    ctx.oblige("corr:descendant_for_byte_range_spec-conclusion-on-non-empty-ranges(range of every non-empty node and its first byte, from the root)",
+               par["dfrbad"] == 0 and (par["dfrchk"] > 0 or evals == 0 or bool(ctx.replay)), "%d ranges checked, %d bad %s" % (par["dfrchk"], par["dfrbad"], "; ".join(ns_bad_cases)))
+    ctx.oblige("corr:dfrIdeal=smallest-spanning-node-of-the-flattened-tree(on every range checked)", par["dfrflat"] == 0,
+               "%d differ %s" % (par["dfrflat"], "; ".join(ns_bad_cases)))
+    ctx.coverage["descendant_for_byte_range_spec"] = {"ranges_checked": par["dfrchk"], "conclusion_failures": par["dfrbad"],
+                                                      "dfrIdeal_vs_flatten_differences": par["dfrflat"]}
+    ctx.coverage["first_child_for_byte_spec_hypotheses"] = {"pairs_checked": par["fcbchk"], "pairs_outside_the_theorem(dead-end descent)": par["fcbout"],
+                                                            "conclusion_failures": par["fcbbad"], "fcbNode_vs_flatten_differences": par["fcbflat"]}
+    ctx.coverage["prev_sibling_spec_hypotheses"] = {"nodes_checked": par["pschk"], "nodes_outside_the_theorem": par["psout"],
+                                                    "conclusion_failures": par["psbad"], "earlierOnPath_vs_flatten_prev_sibling_differences": par["psflat"]}
     ctx.coverage["next_sibling_spec_hypotheses"] = {"nodes_checked": par["nschk"], "nodes_outside_the_theorem(zero-width raw node follows)": par["nsout"],
                                                     "conclusion_failures": par["nsbad"], "laterOnPath_vs_flatten_next_sibling_differences": par["nsflat"]}
     ctx.coverage["parent_spec_hypotheses"] = {"non_empty_nodes_checked": par["parchk"], "zero_width_nodes_outside_the_theorem": par["parzw"],
